@@ -40,6 +40,10 @@ def gen(rng, tier, i):
     if splice:
         sc.net["backend"] = "kernel"
         cname = "kernel"
+        short = rng.choice([0, 100, 400])
+        if short:
+            sc.net["chaos"] = {"short_write": short}   # seeded short splice(2) counts
+            cname = "kernel-short"
     else:
         cname, chaos = G.pick_chaos(rng, weights=(("none", 2), ("mild", 3)))
         if chaos:
